@@ -246,24 +246,150 @@ fn wrap(x: Tree) -> Tree {
     tl![A(9), x]
 }
 
-/// parse the Debug rendering of a (nested) combinator error into an error-path tree
+/// The error path is read off the error's `Debug` form (the combinator error types live in private modules and
+/// offer nothing else that tells the failing part AND the failing element).  The form is parsed structurally, so that
+/// tuple structs, structs with named fields in any order, path-qualified variant names, pretty-printing and extra
+/// transparent wrappers all read the same: `First(..)` / `Second(..)` name the part; any other wrapper around exactly
+/// one inner error together with exactly one integer says "element k of a map failed"; a wrapper around one inner
+/// error and nothing else adds nothing; `ProbeErr(id)` is the probe that failed.
+#[derive(Debug, Clone, PartialEq)]
+enum Dv {
+    Int(i64),
+    Node(String, Vec<Dv>),
+    Other,
+}
+struct Dp<'a> {
+    s: &'a [u8],
+    i: usize,
+}
+impl<'a> Dp<'a> {
+    fn ws(&mut self) {
+        while self.i < self.s.len() && (self.s[self.i] as char).is_whitespace() {
+            self.i += 1;
+        }
+    }
+    fn ident(&mut self) -> String {
+        let st = self.i;
+        loop {
+            match self.s.get(self.i) {
+                Some(b) if (*b as char).is_alphanumeric() || *b == b'_' => self.i += 1,
+                Some(b':') if self.s.get(self.i + 1) == Some(&b':') => self.i += 2,
+                _ => break,
+            }
+        }
+        String::from_utf8_lossy(&self.s[st..self.i]).into_owned()
+    }
+    /// value := int | Name | Name(values) | Name { field: value, .. } | "string" | [values] | other
+    fn value(&mut self) -> Option<Dv> {
+        self.ws();
+        let c = *self.s.get(self.i)? as char;
+        if c == '-' || c.is_ascii_digit() {
+            let st = self.i;
+            self.i += 1;
+            while self.i < self.s.len() && (self.s[self.i] as char).is_ascii_digit() {
+                self.i += 1;
+            }
+            return Some(std::str::from_utf8(&self.s[st..self.i]).ok()?.parse::<i64>().map_or(Dv::Other, Dv::Int));
+        }
+        if c == '"' {
+            self.i += 1;
+            while self.i < self.s.len() && self.s[self.i] != b'"' {
+                if self.s[self.i] == b'\\' {
+                    self.i += 1;
+                }
+                self.i += 1;
+            }
+            self.i += 1;
+            return Some(Dv::Other);
+        }
+        if c == '[' {
+            self.i += 1;
+            let items = self.list(b']')?;
+            return Some(Dv::Node("[]".into(), items));
+        }
+        if c.is_alphabetic() || c == '_' {
+            let name = self.ident();
+            self.ws();
+            return Some(match self.s.get(self.i).map(|b| *b as char) {
+                Some('(') => {
+                    self.i += 1;
+                    Dv::Node(name, self.list(b')')?)
+                }
+                Some('{') => {
+                    self.i += 1;
+                    Dv::Node(name, self.list(b'}')?)
+                }
+                _ => Dv::Node(name, vec![]),
+            });
+        }
+        None
+    }
+    /// comma separated values (each optionally `field:` prefixed, `..` allowed) up to the closing byte
+    fn list(&mut self, close: u8) -> Option<Vec<Dv>> {
+        let mut out = vec![];
+        loop {
+            self.ws();
+            let b = *self.s.get(self.i)?;
+            if b == close {
+                self.i += 1;
+                return Some(out);
+            }
+            if b == b',' {
+                self.i += 1;
+                continue;
+            }
+            if b == b'.' {
+                self.i += 1;
+                continue;
+            }
+            // optional `field:` prefix
+            let save = self.i;
+            if (b as char).is_alphabetic() || b == b'_' {
+                let _ = self.ident();
+                self.ws();
+                if self.s.get(self.i) == Some(&b':') && self.s.get(self.i + 1) != Some(&b':') {
+                    self.i += 1;
+                } else {
+                    self.i = save;
+                }
+            }
+            out.push(self.value()?);
+        }
+    }
+}
+fn parse_debug(s: &str) -> Option<Dv> {
+    let mut p = Dp { s: s.as_bytes(), i: 0 };
+    let v = p.value()?;
+    p.ws();
+    if p.i == s.len() { Some(v) } else { None }
+}
+fn dv_tree(v: &Dv) -> Option<Tree> {
+    match v {
+        Dv::Node(name, kids) => {
+            let nodes: Vec<&Dv> = kids.iter().filter(|k| matches!(k, Dv::Node(..))).collect();
+            let ints: Vec<i64> = kids.iter().filter_map(|k| if let Dv::Int(i) = k { Some(*i) } else { None }).collect();
+            if name == "ProbeErr" && ints.len() == 1 && nodes.is_empty() {
+                return Some(tl![A(0), a(ints[0])]);
+            }
+            if (name == "First" || name.ends_with("::First")) && nodes.len() == 1 && ints.is_empty() {
+                return Some(tl![A(1), dv_tree(nodes[0])?]);
+            }
+            if (name == "Second" || name.ends_with("::Second")) && nodes.len() == 1 && ints.is_empty() {
+                return Some(tl![A(2), dv_tree(nodes[0])?]);
+            }
+            if nodes.len() == 1 && ints.len() == 1 {
+                return Some(tl![A(3), dv_tree(nodes[0])?, a(ints[0])]);
+            }
+            if nodes.len() == 1 && ints.is_empty() {
+                return dv_tree(nodes[0]);
+            }
+            None
+        }
+        _ => None,
+    }
+}
 fn err_tree(s: &str) -> Tree {
-    let s = s.trim();
-    if let Some(r) = s.strip_prefix("First(") {
-        return tl![A(1), err_tree(&r[..r.len() - 1])];
-    }
-    if let Some(r) = s.strip_prefix("Second(") {
-        return tl![A(2), err_tree(&r[..r.len() - 1])];
-    }
-    if let Some(r) = s.strip_prefix("MapError(") {
-        let inner = &r[..r.len() - 1];
-        let k = inner.rfind(',').unwrap();
-        return tl![A(3), err_tree(&inner[..k]), a(inner[k + 1..].trim().parse::<i64>().unwrap())];
-    }
-    if let Some(r) = s.strip_prefix("ProbeErr(") {
-        return tl![A(0), a(r[..r.len() - 1].parse::<i64>().unwrap())];
-    }
-    tl![A(-1)]
+    parse_debug(s).as_ref().and_then(dv_tree).unwrap_or(tl![A(-1)])
 }
 
 fn fin<T: ToVal, E: std::fmt::Debug>(r: Result<T, E>) -> Tree {
